@@ -13,6 +13,7 @@ import (
 	"os"
 	"sort"
 	"strings"
+	"sync"
 	"sync/atomic"
 	"time"
 
@@ -71,6 +72,7 @@ type env struct {
 	task    string
 	bad     string
 	tt      int
+	holdEvs bool // the consumer of the API event channel is stuck: events are not drained until "drainevs"
 }
 
 var planSeq int64
@@ -411,7 +413,7 @@ func (e *env) settle(ev hx.Event) {
 				}
 			}
 		}
-		for {
+		for !e.holdEvs {
 			select {
 			case x := <-e.mgr.GetEventChan():
 				evs = append(evs, evRec(x))
@@ -614,6 +616,61 @@ func run(p *hx.Plan) []hx.Event {
 			ev["gates"] = n
 		case "sleep":
 			time.Sleep(time.Duration(hx.I(st, "ms")) * time.Millisecond)
+		case "holdevs": // the event consumer (the server's event loop) is stuck in a slow downstream call
+			e.holdEvs = true
+		case "drainevs":
+			e.holdEvs = false
+		case "burst":
+			// free run: no gates any more; every listed stream is fed n packs back to back by its own feeder goroutine
+			// (real parallelism, the Go scheduler decides the interleaving).  Recorded as one feed event per pack (per
+			// stream in feed order) followed by this event with everything that arrived, per channel in arrival order.
+			e.sched.Abort()
+			n := hx.I(st, "n")
+			streams := hx.SL(st, "streams")
+			type fed struct {
+				rec hx.Event
+				res string
+			}
+			feeds := make([][]fed, len(streams))
+			var wg sync.WaitGroup
+			for xi, sv := range streams {
+				xi, sv := xi, sv
+				c := e.streamOf(sv)
+				wg.Add(1)
+				go func() {
+					defer wg.Done()
+					for k := 1; k <= n; k++ {
+						b := 10 * k
+						var msgs []interface{}
+						// every pack carries data: a tick-only pack of a forwarded stream may leave on another channel
+						// (known finding C01_tickonly_forward_order) and the order ACROSS channels is not observable in a free run
+						switch (k + int(seed) + xi) % 4 {
+						case 1:
+							msgs = []interface{}{map[string]interface{}{"k": "ins", "ts": float64(b + 1), "p": "_default"}}
+						case 2:
+							msgs = []interface{}{map[string]interface{}{"k": "ins", "ts": float64(b + 2), "p": "p1"}, map[string]interface{}{"k": "del", "ts": float64(b + 2), "p": "p1"}}
+						case 3:
+							msgs = []interface{}{map[string]interface{}{"k": "del", "ts": float64(b + 3), "p": "_default"}, map[string]interface{}{"k": "ins", "ts": float64(b + 1), "p": "_default"}}
+						default:
+							msgs = []interface{}{map[string]interface{}{"k": "ins", "ts": float64(b + 4), "p": "p1"}}
+						}
+						pk := map[string]interface{}{"id": fmt.Sprintf("%s#%d", sv, k), "b": float64(b), "e": float64(b + 9), "msgs": msgs}
+						pack, rec := e.buildPack(sv, c, pk, seed+int64(1000*xi+k))
+						res := e.disp.Feed(sv, pack, 20*time.Second)
+						feeds[xi] = append(feeds[xi], fed{rec, res})
+						if res != "ok" {
+							return
+						}
+					}
+				}()
+			}
+			wg.Wait()
+			for xi, sv := range streams {
+				for _, f := range feeds[xi] {
+					evs = append(evs, hx.Event{"op": "feed", "s": sv, "pack": f.rec, "res": f.res, "out": []hx.Event{}, "evs": []hx.Event{}, "regs": []hx.Event{}})
+				}
+			}
+			ev["n"], ev["streams"] = n, streams
 		}
 		t1 := time.Now()
 		e.settle(ev)
@@ -627,6 +684,7 @@ func run(p *hx.Plan) []hx.Event {
 		}
 	}
 	if e.bad == "" { // drain: everything in flight runs to completion, unscheduled
+		e.holdEvs = false
 		e.sched.Abort()
 		ev := hx.Event{"op": "drain"}
 		e.settle(ev)
